@@ -574,10 +574,10 @@ def run(prop, tier, variants=None):
         if v not in VARIANTS:
             raise SystemExit("unknown hash variant %s (choose from %s)" % (v, ", ".join(VARIANTS)))
         if prop == "C04S":
-            hs = (1, 2, 3) if tier == "quick" else (1, 2, 3, 4)
+            hs = (1, 2, 3)      # height 4 was tried for the thorough tier: no verdict for one hash variant in 65 min
             obs += [ob_c04("bind", v, hs), ob_c04("complete", v, hs), ob_c04("corrupt", v, hs if tier == "thorough" else (1, 2)), ob_c04_report(v)]
         else:
             obs += [ob_c05_row(v, 4 if tier == "quick" else 16), ob_c05_length(v), ob_c05_delegate(v, (1, 2))]
     return {"property": prop, "tier": tier, "engine": "felt-sx", "assumptions": ASSUMPTIONS, "obligations": obs,
-            "outside": ["heights above %d" % (3 if tier == "quick" else 4), "more than 3 queries (C04S) / 2 queried rows (C05S delegate)",
+            "outside": ["heights above 3", "more than 3 queries (C04S) / 2 queried rows (C05S delegate)",
                         "hash collisions (the UF families are collision-free by assumption)"]}
